@@ -4,6 +4,7 @@ import Pearl.Model.Fs
 import Pearl.Model.Record
 import Pearl.Model.BPTreeBytes
 import Pearl.Model.BloomProto
+import Pearl.Model.FilterDriver
 /-
 Driver state around the L2 store: configuration, a lower bound of wall-clock time (sum of `wait`s),
 blob birth times (for the rotation debounce), open/closed.  Nondeterministic background events
@@ -28,6 +29,8 @@ structure DState where
   /-- L6: file counters / index files next to the store, and the events since the last `trace` -/
   fs : Fs.FsState := {}
   pendingEv : List Event := []
+  /-- L3 at the storage level: per-blob filters and the container of the closed blobs -/
+  fstate : FilterDriver.FState := {}
 deriving Inhabited
 
 /-- run one message through the proved worker model (`processMsgFixed` = the loop as it is in /repo) -/
@@ -228,7 +231,7 @@ def fsOps (toks : List String) (out : String) : List Fs.FsOp :=
   | ["open", "lazy"] => [.open true]
   | _ => []
 
-def step (d : DState) (line : String) : DState × String :=
+def stepL6 (d : DState) (line : String) : DState × String :=
   let toks0 := (line.trimAscii.toString.splitOn " ").filter (fun t => t ≠ "")
   -- `cancel <k> <op...>`: the model runs the operation to completion; when the implementation really dropped the
   -- future the judge stops comparing with the model (the Spec oracle accepts "entirely or not at all")
@@ -250,6 +253,28 @@ def step (d : DState) (line : String) : DState × String :=
     let (d', o) := stepCore d line
     let r := Fs.runFrom (d.fs, []) (fsOps toks o)
     ({ d' with fs := r.1, pendingEv := d.pendingEv ++ r.2 }, o)
+
+/-- `stepL6` plus the filter state: `cf` / `cfs` / `gfc` are answered by `FilterDriver.query`, every other line
+    updates the filter state from the L2 stores before and after it -/
+def step (d : DState) (line : String) : DState × String :=
+  let toks0 := (line.trimAscii.toString.splitOn " ").filter (fun t => t ≠ "")
+  let toks0 := if toks0.head? == some "cancel" then toks0.drop 2 else toks0
+  match toks0.filter (fun t => !t.startsWith "@") with
+  | [q, k] =>
+    if q == "cf" || q == "cfs" || q == "gfc" then
+      if !d.isOpen then (d, "err NoStorage")
+      else
+        match FilterDriver.parseKey d.fstate k with
+        | some key => (d, FilterDriver.query d.fstate d.store q key)
+        | none => (d, "bad-op")
+    else
+      let (d', o) := stepL6 d line
+      if o == "err NoStorage" || o == "err AlreadyOpen" then (d', o)
+      else ({ d' with fstate := FilterDriver.apply d.fstate d.store d'.store toks0 }, o)
+  | _ =>
+    let (d', o) := stepL6 d line
+    if o == "err NoStorage" || o == "err AlreadyOpen" then (d', o)
+    else ({ d' with fstate := FilterDriver.apply d.fstate d.store d'.store toks0 }, o)
 
 end Pearl.Driver
 
